@@ -210,17 +210,32 @@ class CompSource(SymSource):
         e = c.src.fresh_elem(it)
         new_vars = list(getattr(c.src, 'last_vars', []))
         self.last_vars = new_vars
+        sub = list(zip(c.vars, new_vars))
+        for cd in c.conds:
+            it.assume(z3.substitute(cd, *sub) if sub else cd)
         if c.identity:
             # [x for x in src if cond(x)]: the element object itself
-            sub = list(zip(c.vars, new_vars))
-            for cd in c.conds:
-                it.assume(z3.substitute(cd, *sub) if sub else cd)
             return e
-        raise Unsupported('iteration over a mapped symbolic comprehension')
+        if len(c.vars) != len(new_vars) or not c.vars:
+            raise Unsupported('iteration over a mapped comprehension of opaque objects')
+        return subst_value(c.elem, sub)
 
     def bases(self):
         return self.comp.src.bases() + [DEFS.sym('FILTERID', self.comp.src.bases(), self.comp.vars,
                                                  list(self.comp.conds) or [z3.BoolVal(True)], IntS)]
+
+
+def subst_value(v, pairs):
+    """structural substitution of z3 variables inside a python-level value"""
+    if isinstance(v, SV):
+        return wrap(z3.substitute(v.t, *pairs))
+    if isinstance(v, tuple):
+        return tuple(subst_value(x, pairs) for x in v)
+    if isinstance(v, RegexV):
+        return RegexV(subst_value(v.pattern, pairs))
+    if v is None or isinstance(v, (bool, int, str, float)):
+        return v
+    raise Unsupported('element of a mapped comprehension: %r' % (v,))
 
 
 class GenExp:
@@ -568,6 +583,10 @@ def binop(it, op, a, b, inplace=False):
                 return wrap(z3.If(tb > 0, ta % tb, -((-ta) % (-tb))))
     # cells: arithmetic on opaque cells is abstracted by an uninterpreted function per operator
     if (isinstance(a, SV) and a.t.sort().eq(Cell)) or (isinstance(b, SV) and b.t.sort().eq(Cell)):
+        if name in ('Div', 'FloorDiv', 'Mod') and sb is not None:
+            tb = term(b)
+            if not it.branch(tb != 0):
+                it.raise_('ZeroDivisionError')
         f = z3.Function('cell_' + name.lower(), Cell, Cell, Cell)
         it.assumptions.add('arithmetic on opaque cells (%s) is an uninterpreted total function' % name)
         return SV(f(it.cell_of(a), it.cell_of(b)))
@@ -678,8 +697,15 @@ def contains(it, container, x):
         xt = term(x, et.sort())
         cond = z3.And(*container.conds) if container.conds else z3.BoolVal(True)
         return DEFS.sym('ANY', container.src.bases(), container.vars, [z3.And(cond, et == xt)], BoolS)
-    if isinstance(container, Opaque) and '__contains__' in container.attrs:
-        return container.attrs['__contains__'](it, x)
+    if isinstance(container, Opaque):
+        c = container.attrs.get('__contains__')
+        if c is None:
+            mk = OPAQUE_KINDS.get(container.kind, {}).get('__contains__')
+            if mk is not None:
+                c = mk(it, container)
+                container.attrs['__contains__'] = c
+        if c is not None:
+            return c(it, x)
     raise Unsupported('in on %r' % (container,))
 
 
@@ -1692,7 +1718,16 @@ def _dictval_getitem(it, obj, key):
     return obj.attrs[k]
 
 
-OPAQUE_KINDS = {'dictval': {'__getitem__': _dictval_getitem}}     # kind -> {attr: maker(it, obj)}
+ACC_CONTAINS = z3.Function('acc_contains', IntS, Cell, BoolS)
+
+
+def _dictval_contains_maker(it, obj):
+    if obj.term is None:
+        obj.term = it.fresh('accobj', IntS)
+    return lambda it_, x: ACC_CONTAINS(obj.term, it_.cell_of(x))
+
+
+OPAQUE_KINDS = {'dictval': {'__getitem__': _dictval_getitem, '__contains__': _dictval_contains_maker}}     # kind -> {attr: maker(it, obj)}
 OPAQUE_CALLS = {}     # (kind, method) -> handler(it, obj, args, kwargs) -> result
 
 
@@ -1900,10 +1935,27 @@ def havoc_rebound(it, name, cur):
     raise Unsupported('havoc of rebound %s = %r' % (name, cur))
 
 
+ELEM_ITEM = z3.Function('elem_item', IntS, StrS, Cell)
+
+
+def _listelem_getitem(it, obj, key):
+    return it.uncell(ELEM_ITEM(obj.term, term(key, StrS)))
+
+
+OPAQUE_KINDS['listelem'] = {'__getitem__': _listelem_getitem}
+
+
 def havoc_list(it, name, cur):
+    """list accumulator at a loop cut: opaque prefix whose elements are abstract dict-like objects"""
     t = it.fresh('hv_%s.seq' % name, IntS)
-    seq = SymSeq('hv_' + name, t, lambda it_: (_unsup('element of havocked list'), None))
-    return SymList(seq, [])
+
+    def mk(it_):
+        e = it_.fresh('hv_%s.e' % name, IntS)
+        return Opaque('listelem', 'hv_%s.e' % name, term=e), e
+    seq = SymSeq('hv_' + name, t, mk)
+    lst = SymList(seq, [])
+    lst.parent = getattr(cur, 'parent', None)
+    return lst
 
 
 EXC_PARENT.update({'TableSchemaException': 'DataPackageException', 'CastError': 'TableSchemaException',
@@ -2017,6 +2069,13 @@ def _b_len(it, v):
         n = DEFS.sym('COUNT', v.src.bases(), v.vars, list(v.conds) or [z3.BoolVal(True)], IntS)
         it.assume(n >= 0)
         return wrap(n)
+    if isinstance(v, SetV):
+        if v.elem_sort is None:
+            return 0
+        f = z3.Function('set_card_%s' % v.elem_sort, v.arr.sort(), IntS)
+        n = f(v.arr)
+        it.assume(n >= 0)
+        return wrap(n)
     if isinstance(v, Row):
         f = z3.Function('row_len', DomS, IntS)
         n = f(v.dom)
@@ -2125,6 +2184,8 @@ def _b_set(it, src=None):
     if isinstance(src, SymSeq) and z3.is_seq(src.term):
         k = z3.Const('__e', src.term.sort().basis())
         return SetV(z3.Lambda([k], z3.Contains(src.term, z3.Unit(k))), src.term.sort().basis())
+    if isinstance(src, CompSeq):
+        return build_comp(it, src.src, src.vars, src.elem, src.conds, 'set')
     kind, items = iterate(it, src)
     if kind == 'concrete':
         return make_set(it, items)
@@ -2367,8 +2428,26 @@ def _b_sorted(it, src, key=None, reverse=False):
     raise Unsupported('sorted of symbolic values')
 
 
+def _comp_fold(it, kind, c, extra=()):
+    et = it.cell_of(c.elem)
+    cond = z3.And(*c.conds) if c.conds else z3.BoolVal(True)
+    return DEFS.sym(kind, c.src.bases(), c.vars, [et, cond] + list(extra), Cell)
+
+
+def _comp_count(it, c):
+    n = DEFS.sym('COUNT', c.src.bases(), c.vars, list(c.conds) or [z3.BoolVal(True)], IntS)
+    it.assume(n >= 0)
+    return n
+
+
 def _fold_minmax(name):
     def f(it, *a, **k):
+        if len(a) == 1 and isinstance(a[0], GenExp):
+            a = (consume_comp(it, a[0], 'list'),)
+        if len(a) == 1 and isinstance(a[0], CompSeq):
+            if not it.branch(_comp_count(it, a[0]) > 0):
+                it.raise_('ValueError', '%s() arg is an empty sequence' % name)
+            return it.uncell(_comp_fold(it, name.upper(), a[0]))
         if len(a) == 1:
             kind, items = iterate(it, a[0])
             if kind != 'concrete':
@@ -2390,6 +2469,12 @@ def _fold_minmax(name):
 
 
 def _b_sum(it, src, start=0):
+    if isinstance(src, GenExp):
+        src = consume_comp(it, src, 'list')
+    if isinstance(src, CompSeq):
+        if start != 0:
+            raise Unsupported('sum with start over symbolic sequence')
+        return it.uncell(z3.If(_comp_count(it, src) > 0, _comp_fold(it, 'SUM', src), Cell.int(0)))
     kind, items = iterate(it, src)
     if kind != 'concrete':
         raise Unsupported('sum of symbolic iterable')
